@@ -128,50 +128,111 @@ Proof.
   intros i j Hi Hj. unfold absd at 1. rewrite G by congruence. reflexivity.
 Qed.
 
-(* row / column scaling through Eigen: correct on square matrices ... *)
-Lemma multiplyRow_dense_square d v : nr d = nc d -> length v = nr d ->
-  exists r, D_multiplyRow d v = Ok r /\ nr r = nr d /\ nc r = nc d /\ meq (nr d) (nc d) (absd r) (mrowscale (vl v) (absd d)).
+(* row / column scaling through Eigen: every shape *)
+Lemma e_map_all v n : n = length v -> e_map v n = Ok v.
+Proof. intros ->. unfold e_map. rewrite Nat.leb_refl, firstn_all. reflexivity. Qed.
+
+Lemma multiplyRow_dense d v : length v = nr d ->
+  exists r, D_multiplyRow d v = Ok r /\ nr r = nr d /\ nc r = nc d /\ wfd r /\ meq (nr d) (nc d) (absd r) (mrowscale (vl v) (absd d)).
 Proof.
-  intros Sq Hv. unfold D_multiplyRow, e_map.
-  replace (nc d <=? length v)%nat with true by (symmetry; apply Nat.leb_le; lia). simpl rbind.
-  rewrite (firstn_length_eq v (nc d)) by lia. unfold e_diag_left.
-  replace (length v =? nr d)%nat with true by (symmetry; apply Nat.eqb_eq; lia).
-  eexists. split; [reflexivity|]. split; [reflexivity|]. split; [reflexivity|].
+  intros Hv. unfold D_multiplyRow. rewrite e_map_all by congruence. simpl rbind. unfold e_diag_left. rewrite Hv, Nat.eqb_refl.
+  eexists. split; [reflexivity|]. split; [reflexivity|]. split; [reflexivity|]. split; [apply wfd_tab|].
   intros i j Hi Hj. unfold absd at 1. rewrite getv_tab by assumption. reflexivity.
 Qed.
-Lemma multiplyColumn_dense_square d v : nr d = nc d -> length v = nc d ->
-  exists r, D_multiplyColumn d v = Ok r /\ nr r = nr d /\ nc r = nc d /\ meq (nr d) (nc d) (absd r) (mcolscale (vl v) (absd d)).
+Lemma multiplyColumn_dense d v : length v = nc d ->
+  exists r, D_multiplyColumn d v = Ok r /\ nr r = nr d /\ nc r = nc d /\ wfd r /\ meq (nr d) (nc d) (absd r) (mcolscale (vl v) (absd d)).
 Proof.
-  intros Sq Hv. unfold D_multiplyColumn, e_map.
-  replace (nr d <=? length v)%nat with true by (symmetry; apply Nat.leb_le; lia). simpl rbind.
-  rewrite (firstn_length_eq v (nr d)) by lia. unfold e_diag_right.
-  replace (nc d =? length v)%nat with true by (symmetry; apply Nat.eqb_eq; lia).
-  eexists. split; [reflexivity|]. split; [reflexivity|]. split; [reflexivity|].
+  intros Hv. unfold D_multiplyColumn. rewrite e_map_all by congruence. simpl rbind. unfold e_diag_right. rewrite Hv, Nat.eqb_refl.
+  eexists. split; [reflexivity|]. split; [reflexivity|]. split; [reflexivity|]. split; [apply wfd_tab|].
   intros i j Hi Hj. unfold absd at 1. rewrite getv_tab by assumption. reflexivity.
+Qed.
+Lemma vl_inverse v i : (i < length v)%nat -> vl (vh_inverse v) i == 1 / vl v i.
+Proof.
+  intro H. unfold vl, vh_inverse. rewrite (nth_indep _ 0 (1 / 0)) by (rewrite map_length; assumption).
+  rewrite (map_nth (fun x => 1 / x) v 0 i). reflexivity.
+Qed.
+Lemma divideRow_dense d v : length v = nr d ->
+  exists r, D_divideRow d v = Ok r /\ nr r = nr d /\ nc r = nc d /\ wfd r /\ meq (nr d) (nc d) (absd r) (mrowdiv (vl v) (absd d)).
+Proof.
+  intros Hv. unfold D_divideRow. rewrite e_map_all by (unfold vh_inverse; rewrite map_length; congruence). simpl rbind.
+  unfold e_diag_left. unfold vh_inverse at 1. rewrite map_length, Hv, Nat.eqb_refl.
+  eexists. split; [reflexivity|]. split; [reflexivity|]. split; [reflexivity|]. split; [apply wfd_tab|].
+  intros i j Hi Hj. unfold absd at 1. rewrite getv_tab by assumption. unfold mrowscale, mrowdiv.
+  rewrite vl_inverse by congruence. unfold Qdiv. ring.
+Qed.
+Lemma divideColumn_dense d v : length v = nc d ->
+  exists r, D_divideColumn d v = Ok r /\ nr r = nr d /\ nc r = nc d /\ wfd r /\ meq (nr d) (nc d) (absd r) (mcoldiv (vl v) (absd d)).
+Proof.
+  intros Hv. unfold D_divideColumn. rewrite e_map_all by (unfold vh_inverse; rewrite map_length; congruence). simpl rbind.
+  unfold e_diag_right. unfold vh_inverse at 1. rewrite map_length, Hv, Nat.eqb_refl.
+  eexists. split; [reflexivity|]. split; [reflexivity|]. split; [reflexivity|]. split; [apply wfd_tab|].
+  intros i j Hi Hj. unfold absd at 1. rewrite getv_tab by assumption. unfold mcolscale, mcoldiv.
+  rewrite vl_inverse by congruence. unfold Qdiv. ring.
 Qed.
 
-(* ... and a contract violation on every other shape: witnesses *)
-Definition ones12 : dense := tab 1 2 (fun _ _ => 1).
-Lemma multiplyRow_dense_refuted : exists d v c, wfd d /\ length v = nr d /\ D_multiplyRow d v = UB c.
-Proof. exists ones12, [2], ub_map. vm_compute. auto. Qed.
-Lemma multiplyColumn_dense_refuted : exists d v c, wfd d /\ length v = nc d /\ D_multiplyColumn d v = UB c.
-Proof. exists ones12, [2; 3], ub_product. vm_compute. auto. Qed.
-Lemma divideRow_dense_refuted : exists d v c, wfd d /\ length v = nr d /\ (forall x, In x v -> ~ x == 0) /\ D_divideRow d v = UB c.
+(* in-place products with a vector, both transposition flags, every shape *)
+Lemma nth_zeros {A} (y : list A) i : nth i (map (fun _ => 0) y) 0 = 0.
+Proof. revert i; induction y as [|a y IH]; intros [|i]; simpl; auto. Qed.
+Lemma combine_nth_add (a b : list Q) i : length a = length b ->
+  nth i (map (fun p => fst p + snd p) (combine a b)) 0 == nth i a 0 + nth i b 0.
 Proof.
-  exists ones12, [2], ub_map. split; [vm_compute; reflexivity|]. split; [reflexivity|]. split; [|vm_compute; reflexivity].
-  intros x [<-|[]]. intro H. discriminate H.
+  revert b i. induction a as [|x a IH]; intros [|y b] [|i] H; simpl in *; try discriminate; try ring.
+  apply IH. lia.
 Qed.
-Lemma divideColumn_dense_refuted : exists d v c, wfd d /\ length v = nc d /\ (forall x, In x v -> ~ x == 0) /\ D_divideColumn d v = UB c.
+Lemma prodMatVecInPlace_dense d x y t : length x = dimc t d -> length y = dimr t d ->
+  exists r, D_prodMatVecInPlace d x y t = Ok r /\ length r = dimr t d /\
+    forall i, (i < dimr t d)%nat -> nth i r 0 == mvec (dimc t d) (opT t (absd d)) (vl x) i.
 Proof.
-  exists ones12, [2; 4], ub_product. split; [vm_compute; reflexivity|]. split; [reflexivity|]. split; [|vm_compute; reflexivity].
-  intros x [<-|[<-|[]]]; intro H; discriminate H.
+  intros Hx Hy. unfold D_prodMatVecInPlace.
+  rewrite e_map_all by congruence. simpl rbind.
+  rewrite e_map_all by (rewrite map_length; congruence). simpl rbind.
+  unfold e_mulvec. rewrite <- Hx, Nat.eqb_refl. simpl rbind.
+  unfold e_assign_map. rewrite !map_length, seq_length, Hy, Nat.eqb_refl. rewrite Hx.
+  eexists. split; [reflexivity|].
+  assert (Hs : skipn (dimr t d) (map (fun _ : Q => 0) y) = []) by (apply skipn_all2; rewrite map_length; lia).
+  rewrite Hs. rewrite (app_nil_r (A:=Q)). split.
+  - rewrite map_length, combine_length, !map_length, seq_length, Hy. apply Nat.min_id.
+  - intros i Hi. rewrite combine_nth_add by (rewrite !map_length, seq_length; congruence).
+    rewrite nth_zeros, nth_map_seq by assumption. ring.
 Qed.
-Lemma prodMatVecInPlace_dense_refuted : exists d x y c, wfd d /\ length x = nr d /\ length y = nc d /\ D_prodMatVecInPlace d x y true = UB c.
-Proof. exists ones12, [1], [0; 0], ub_map. vm_compute. auto. Qed.
-Lemma prodVecMatInPlace_dense_refuted : exists d x y c, wfd d /\ length x = nc d /\ length y = nr d /\ D_prodVecMatInPlace d x y true = UB c.
-Proof. exists (tab 2 1 (fun _ _ => 1)), [1], [0; 0], ub_map. vm_compute. auto. Qed.
-Lemma prodNormMatVec_dense_refuted : exists d a v c, wfd a /\ length v = nc a /\ nr d = nr a /\ nc d = nr a /\ D_prodNormMatVec d a v false = UB c.
-Proof. exists (tab 2 2 mzero), (tab 2 2 mid), [1; 1], ub_product. vm_compute. auto. Qed.
+Lemma prodVecMatInPlace_dense d x y t : length x = dimr t d -> length y = dimc t d ->
+  exists r, D_prodVecMatInPlace d x y t = Ok r /\ length r = dimc t d /\
+    forall j, (j < dimc t d)%nat -> nth j r 0 = vmat (dimr t d) (vl x) (opT t (absd d)) j.
+Proof.
+  intros Hx Hy. unfold D_prodVecMatInPlace.
+  rewrite e_map_all by congruence. simpl rbind. rewrite e_map_all by congruence. simpl rbind.
+  unfold e_vecmul. rewrite Hx, Nat.eqb_refl. simpl rbind.
+  unfold e_assign_map. rewrite map_length, seq_length, Hy, Nat.eqb_refl. simpl rbind.
+  assert (Hs : skipn (dimc t d) y = []) by (apply skipn_all2; lia).
+  rewrite Hs. rewrite (app_nil_r (A:=Q)). eexists. split; [reflexivity|]. split; [rewrite map_length, seq_length; reflexivity|].
+  intros j Hj. rewrite nth_map_seq by assumption. reflexivity.
+Qed.
+
+(* congruence product with a diagonal matrix given by its vector *)
+Lemma mmul_mdiag n A v i l : (l < n)%nat -> mmul n A (mdiag v) i l == A i l * v l.
+Proof.
+  intro Hl. unfold mmul, mdiag. rewrite (sumn_single n _ l Hl).
+  - rewrite Nat.eqb_refl. reflexivity.
+  - intros k _ Hk. destruct (Nat.eqb_spec k l); [contradiction|]. ring.
+Qed.
+Lemma prodNormMatVec_dense d a v t : v <> [] -> length v = dimc t a -> nr d = dimr t a -> nc d = dimr t a ->
+  exists r, D_prodNormMatVec d a v t = Ok r /\ nr r = nr d /\ nc r = nc d /\ wfd r /\
+    meq (nr d) (nc d) (absd r) (mcongr_diag t (dimc t a) (absd a) (vl v)).
+Proof.
+  intros Hne Hv Hd1 Hd2. destruct (dims_negb t a) as [N1 N2].
+  unfold D_prodNormMatVec. destruct v as [|v0 v']; [contradiction|]. set (v := v0 :: v') in *.
+  unfold e_mul_diag. rewrite Hv, Nat.eqb_refl. simpl rbind.
+  set (av := tab (dimr t a) (dimc t a) (mcolscale (vl v) (opT t (absd a)))).
+  destruct (e_mul_ok false (negb t) av a) as [r [E2 [R2 [C2 [W2 G2]]]]]; [rewrite N1; reflexivity|].
+  rewrite E2. simpl rbind. simpl in R2, C2. rewrite e_store_ok by congruence.
+  exists r. split; [reflexivity|]. split; [congruence|]. split; [congruence|]. split; [assumption|].
+  intros i j Hi Hj. unfold absd at 1. rewrite G2 by (simpl; congruence).
+  unfold mcongr_diag, mcongr. simpl dimc at 1.
+  apply mmul_ext.
+  - intros l Hl. simpl opT. unfold absd at 1. unfold av. rewrite getv_tab by (try assumption; congruence).
+    rewrite mmul_mdiag by assumption. reflexivity.
+  - intros; reflexivity.
+Qed.
 
 (* ------------------------------------------------------------------ element access *)
 Lemma setValue_plain_spec d i j v : wfd d -> (i < nr d)%nat -> (j < nc d)%nat ->
